@@ -218,10 +218,18 @@ type Enc struct {
 	Ann *[]Annot
 	// MaxBlocks limits how many blocks a collection may be split into (0 = no limit)
 	MaxBlocks int
+	// Policy, when set, answers every choice instead of Ch (a fixed writer behaviour, e.g. "one item per block")
+	Policy func(label string, n int) int
 }
 
 func (e *Enc) choose(label string, n int) int {
-	if e == nil || e.Ch == nil || n <= 1 {
+	if e == nil || n <= 1 {
+		return 0
+	}
+	if e.Policy != nil {
+		return e.Policy(label, n)
+	}
+	if e.Ch == nil {
 		return 0
 	}
 	return e.Ch.Choose(label, n)
@@ -307,7 +315,7 @@ func (e *Enc) Encode(b []byte, s *Schema, d Datum) []byte {
 			var sub *Enc
 			var subAnn []Annot
 			if e != nil {
-				sub = &Enc{Ch: e.Ch, MaxBlocks: e.MaxBlocks}
+				sub = &Enc{Ch: e.Ch, MaxBlocks: e.MaxBlocks, Policy: e.Policy}
 				if e.Ann != nil {
 					sub.Ann = &subAnn
 				}
